@@ -88,13 +88,15 @@ func (r *Reconciler) Reconcile(ctx context.Context, request reconcile.Request) (
 
 	edsNodesList := &datadoghqv1alpha1.ExtendedDaemonsetSettingList{}
 	if err = r.client.List(ctx, edsNodesList, &client.ListOptions{Namespace: instance.Namespace}); err != nil {
-		return r.updateExtendedDaemonsetSetting(ctx, instance, newStatus)
+		// nothing can be decided without the other settings: report the error so that the request is retried,
+		// instead of keeping (or storing) a status and reporting success
+		return reconcile.Result{}, err
 	}
 
 	nodesList := &corev1.NodeList{}
 	if err = r.client.List(ctx, nodesList); err != nil {
-		newStatus.Status = datadoghqv1alpha1.ExtendedDaemonsetSettingStatusError
-		newStatus.Error = fmt.Sprintf("unable to get nodes, err:%v", err)
+		// same without the nodes: a transient API failure must not turn a valid setting into an error for good
+		return reconcile.Result{}, err
 	}
 
 	var otherEdsNode string
